@@ -105,6 +105,7 @@ def cases(tier):
         add("algorithms.add_2sum[fast=False]", lambda ctx, x, y: A.add_2sum(x, y, fast=False), 2, sum_post, t, cl and not heavy, high="fpAdd", ctxkind="wrap")
         add("algorithms.add_2sum[fast=True]", lambda ctx, x, y: A.add_2sum(x, y, fast=True), 2, sum_post, t, cl, extra_pre=ge_abs, high="fpAdd", ctxkind="wrap")
         # apmath wrappers
+        add("apmath.split", lambda ctx, x: AP.split(ctx, x), 1, split_post, t, cl, widths=(hi_bits, lo_bits))
         add("apmath.two_sum", lambda ctx, x, y: AP.two_sum(ctx, x, y), 2, sum_post, t, cl and not heavy, high="fpAdd")
         add("apmath.quick_two_sum", lambda ctx, x, y: AP.quick_two_sum(ctx, x, y), 2, sum_post, t, cl, extra_pre=ge_abs, high="fpAdd")
         add("apmath.two_prod", lambda ctx, x, y: AP.two_prod(ctx, x, y), 2, prod_post, t, cl and not heavy, extra_pre=fma_exact, high="fpMul", budget=600)
@@ -247,6 +248,8 @@ def native(case_name, t, x, y=None):
             f = getattr(U, name.split(".")[1])
             kind = {"add_2sum": "sum", "add_fast2sum": "sum", "double_2sum": "dbl", "double_fast2sum": "dbl", "split_veltkamp": "split", "multiply_dekker": "prod", "square_dekker": "sq"}[name.split(".")[1]]
             return (f(x, y) if y is not None and kind in ("sum", "prod") else f(x)), kind
+        if name == "apmath.split":
+            return AP.split(ctx, x), "split"
         if name == "apmath.two_sum":
             return AP.two_sum(ctx, x, y), "sum"
         if name == "apmath.quick_two_sum":
